@@ -37,6 +37,40 @@ RULES = {
 STATUS = 'nundb::bo::ValueStatus'
 
 
+_FRESH = {}
+
+
+def fresh_ctors(m):
+    """functions returning a Value whose disk offsets are literals (Value::from(..)): a from-scratch entry"""
+    if _FRESH.get('prog') is not m.prog:
+        _FRESH.clear()
+        _FRESH['prog'] = m.prog
+        ids = set()
+        for b in m.prog.user_bodies():
+            if b.locals[0] != 'nundb::bo::Value' or b.kind not in ('fn', 'method'):
+                continue
+            for r in core.place_origins(b, {'l': 0}):
+                if r[0] == 'agg':
+                    rv = b.blocks[r[1]]['s'][r[2]]['r']
+                    if rv.get('adt', '').endswith('bo::Value') and 'value_disk_addr' in rv.get('fields', []):
+                        op = rv['ops'][rv['fields'].index('value_disk_addr')]
+                        ro = origins(b, op)
+                        if ro and all(x[0] == 'const' for x in ro):
+                            ids.add(b.id)
+        changed = True
+        while changed:
+            changed = False
+            for b in m.prog.user_bodies():
+                if b.locals[0] != 'nundb::bo::Value' or b.id in ids or b.kind not in ('fn', 'method'):
+                    continue
+                for r in core.place_origins(b, {'l': 0}, stop_at_calls=True):
+                    if r[0] == 'call' and callee(b.term(r[1])) in ids:
+                        ids.add(b.id)
+                        changed = True
+        _FRESH['ids'] = ids
+    return _FRESH['ids']
+
+
 def writer_cells(m):
     """(writer body, {state: arm entry block}, {(state, mode): region}) of the disk snapshot writer: its switch over the
     entry state, each arm split on the reclaim parameter; raises AnchorError when not found"""
@@ -164,6 +198,16 @@ def _run(ck, m):
             if not fx.guard_sources(top, t['args'][0]):
                 continue
             for r in origins(b, t['args'][2], stop_at_calls=True):
+                if r[0] == 'call' and callee(b.term(r[1])) in fresh_ctors(m):
+                    # a Value built from scratch (state New, offsets 0): only for a key that is not in the map
+                    from props.C02 import literal_ok
+                    nb += 1
+                    ok, why = literal_ok(m, b, [r[1]], 1)
+                    ck.ob('C06.b', short(b.id), 'fresh-value:%s' % short(callee(b.term(r[1]))), ok,
+                          'a Value built from scratch is inserted only on the branch where the key was absent' if ok else
+                          'a Value built from scratch (state New, disk offsets 0) can replace an existing entry: %s — the snapshot then no '
+                          'longer marks the old record deleted and the removed key comes back after a restart' % why, b.loc(r[1]))
+                    continue
                 if r[0] != 'agg':
                     continue
                 rv = b.blocks[r[1]]['s'][r[2]]['r']
